@@ -63,7 +63,10 @@ func (g *c53Gen) content() []byte {
 }
 
 func (g *c53Gen) leaf(name string) *vdNode {
-	n := &vdNode{Name: name, Mode: 0o644, MTime: g.mtime(), UID: uint32(g.rng.Intn(3)), GID: uint32(g.rng.Intn(3))}
+	g.seq++
+	// real backups record inode numbers; a content change that keeps inode, size, mtime and the
+	// number of blobs (mutation "content-same-meta") must still be reported (seeded change C53-2)
+	n := &vdNode{Name: name, Mode: 0o644, MTime: g.mtime(), UID: uint32(g.rng.Intn(3)), GID: uint32(g.rng.Intn(3)), Inode: uint64(1000 + g.seq)}
 	switch g.rng.Intn(10) {
 	case 0:
 		n.Type, n.Link, n.Mode = data.NodeTypeSymlink, "target-"+fmt.Sprint(g.rng.Intn(5)), 0o777
